@@ -62,7 +62,17 @@ func c08Child(name string, depth int) (Marshaler, string) {
 		for i := 0; i < n; i++ {
 			fields = append(fields, CollectedField{Field: &ast.Field{Alias: aliases[i], Name: "f"}})
 		}
-		fs := NewFieldSet(fields)
+		// the object's fields are given at construction, or (as generated code does for deferred groups) the later ones are added one by one
+		grown := n > 1 && zzsym.Choice(name+".grown", 2) == 1
+		var fs *FieldSet
+		if grown {
+			fs = NewFieldSet(fields[:1])
+			for i := 1; i < n; i++ {
+				fs.AddField(fields[i])
+			}
+		} else {
+			fs = NewFieldSet(fields)
+		}
 		want := "{"
 		for i := 0; i < n; i++ {
 			m, w := c08Child(name+"{}", depth-1)
